@@ -1,0 +1,7 @@
+//go:build !verif
+
+package runner
+
+// verifPoint marks a scheduling point of the action scheduler. Without the
+// verif build tag it does nothing and is inlined away.
+func verifPoint(kind string, root, a, t action, flag bool) {}
